@@ -659,6 +659,19 @@ func main() {
 	}
 	fmt.Fprintf(&b, "def vmexecFacts : List String := %s\n\n", leanList(vf))
 
+	// ---- the journal undo of AddLog (the block-wide log counter must go back with every rolled-back log)
+	undoLog := ""
+	if f := acct["addLogChange.undo"]; f != nil {
+		var st []string
+		for _, x := range f.decl.Body.List {
+			st = append(st, src(x))
+		}
+		undoLog = strings.Join(st, " ; ")
+	} else {
+		fail("addLogChange.undo not found")
+	}
+	fmt.Fprintf(&b, "def addLogUndo : String := %s\n\n", leanStr(undoLog))
+
 	// ---- fork-flag reads on the C12 path: which function consults which proposal flag
 	flagSet := map[string]bool{}
 	scanFlags := func(pkg string, fns map[string]*fn, only string) {
